@@ -176,6 +176,27 @@ def run_check(tier, seed):
         P = E.Op('&', wp, g.cond(0)) if r.random() < 0.5 else wp
         progs.append((P, c, Q, 'wp-derived'))
 
+    # an assignment followed by a conditional whose guard reads the assigned variable (the weakest precondition has to
+    # substitute into the guard of the if-then-else it builds); precondition derived, or derived & extra
+    for _ in range(n_rand // 3):
+        x = r.choice(VARS)
+        others = [v for v in VARS if v != x]
+        guard = E.Op(r.choice(['<=', '<', '==', '!=']), E.Var(x), g.arith(1))
+        if r.random() < 0.3:
+            guard = E.Op(r.choice(['&', '|']), guard, g.cond(0))
+        y = r.choice(others)
+        br1 = C.Assign(y, g.arith(1)) if r.random() < 0.8 else g.com(1, loops=False)
+        br2 = C.Assign(y, g.arith(1)) if r.random() < 0.8 else C.Skip()
+        c = C.Seq(C.Assign(x, E.Op(r.choice(['+', '-']), E.Var(x), E.Const(r.choice([1, 2])))) if r.random() < 0.6 else C.Assign(x, g.arith(1)),
+                  C.Cond(guard, br1, br2))
+        if r.random() < 0.3:
+            c = C.Seq(g.com(1, loops=False), c)
+        Q = E.Op(r.choice(['==', '<=', '!=']), E.Var(y), g.arith(1)) if r.random() < 0.7 else g.cond(1)
+        cc = clone_com(c)
+        wp = cc.compute_wp(Q)
+        P = E.Op('&', wp, g.cond(0)) if r.random() < 0.3 else wp
+        progs.append((P, c, Q, 'assign-then-branch'))
+
     exprs, meta = [], []
     oracle_exprs, oracle_meta = [], []
     for P, c, Q, origin in progs:
@@ -202,7 +223,7 @@ def run_check(tier, seed):
             run.violation('property', 'a verification condition shown to the user does not parse back: %s' % vcs,
                           dict(pre=str(P), com=repr(gc), post=str(Q), vcs=vcs, error=repr(e)), key='C20:vc-unparsable')
             continue
-        nstates = 6 if origin == 'random' else 12
+        nstates = 6 if origin == 'random' else (24 if origin == 'assign-then-branch' else 12)
         for _ in range(nstates):
             s0 = g.state(0, 4) if origin == 'template' else g.state()
             oracle_exprs.append('vc_oracle %s %s %s %s %s 400' % (
